@@ -411,4 +411,91 @@ def computeAnn (G : Grammar) (T : Tables) (nStates : Nat) : Ann :=
   let ann0 : Ann := { items := [], nullable := nl, first := fs }
   { ann0 with items := computeItems G T ann0 nStates 10000 }
 
+/-! ### V7: the reduce loops of the driver terminate (C08)
+
+NOT part of `validate`. A check of the emitted tables alone: for every lookahead `la` (end of input
+or a terminal), the loop "look up the action of the top state under `la`; if it is a reduction, pop
+and push the goto" is simulated, with fuel `F`,
+* from the stack `[0]`, and
+* from every two-state stack `[t, b]` where `t` is what the tables push on top of `b` (the goto of
+  `b` on any nonterminal, or the target of a shift entry of `b`),
+and must stop (no reduction, or a reduction that pops below the simulated part) within `F` steps.
+Besides, the shape facts the proofs use (all part of V0 too): shift and goto targets are states,
+left-hand sides have a goto row, no entry of `__EOF_ACTION` is a shift, and the error terminal
+exists when the parser uses error recovery.
+`Lemmas/LRTerm*.lean` prove that then every reduce loop of the driver (`parse`, `parse_eof`, the
+reduce loop of `error_recovery`, and the `accepts` simulation) terminates on every stack the driver
+can build, within a number of steps that is linear in the stack height. -/
+
+/-- the reduction of a non-start production that the tables prescribe in state `top` under
+    lookahead `la`: `(rhs length, lhs)` -/
+def redInfo (T : Tables) (la : LA) (top : Nat) : Option (Nat × NT) :=
+  match actionFor T top la with
+  | some a =>
+    match asReduce a with
+    | some p =>
+      match T.prodLen[p]?, T.prodLhs[p]?, T.isStart[p]? with
+      | some n, some A, some false => some (n, A)
+      | _, _, _ => none
+    | none => none
+  | none => none
+
+inductive LocStep where
+  /-- no reduction of a non-start production under this lookahead: the loop ends here -/
+  | stop
+  /-- a reduction that pops more states than the part of the stack at hand has -/
+  | under
+  /-- the part of the stack after the reduction -/
+  | step (st : List Nat)
+
+/-- one iteration of the reduce loop on a part `st` (top first) of the state stack -/
+def locStep (T : Tables) (la : LA) (st : List Nat) : LocStep :=
+  match st with
+  | [] => .stop
+  | top :: _ =>
+    match redInfo T la top with
+    | none => .stop
+    | some (n, A) =>
+      match st.drop n with
+      | [] => .under
+      | below :: more => .step (T.gotoAt below A :: below :: more)
+
+/-- the loop stops on `st` within `F` iterations -/
+def simOK (T : Tables) (la : LA) : Nat → List Nat → Bool
+  | 0, _ => false
+  | f + 1, st =>
+    match locStep T la st with
+    | .stop => true
+    | .under => true
+    | .step st' => simOK T la f st'
+
+/-- the lookaheads: end of input and the terminals -/
+def allLA (T : Tables) : List LA := none :: (List.range T.nTerm).map some
+
+/-- V7 with fuel `F` -/
+def checkTerm (T : Tables) (F : Nat) : Bool :=
+  let nS := T.nStates
+  decide (0 < nS) &&
+  (!T.usesRecovery || decide (0 < T.nTerm)) &&
+  T.eofAction.all (fun a => decide (a ≤ 0)) &&
+  T.action.all (fun a => decide (a ≤ 0) || decide ((a - 1).toNat < nS)) &&
+  T.goto.all (fun row => row.all (fun s => decide (s < nS))) &&
+  (List.range T.prodLhs.length).all (fun p =>
+    T.isStart.getD p false || decide (T.prodLhs.getD p 0 < T.goto.length)) &&
+  (allLA T).all fun la =>
+    simOK T la F [0] &&
+    (List.range nS).all fun b =>
+      (List.range T.goto.length).all (fun A => simOK T la F [T.gotoAt b A, b]) &&
+      (List.range T.nTerm).all (fun x =>
+        match T.actionAt b x with
+        | some a =>
+          match asShift a with
+          | some t => simOK T la F [t, b]
+          | none => true
+        | none => true)
+
+/-- the fuel `validate3` uses: more than any chain of reductions without a shift can need in a
+    table built from a grammar without derivation cycles -/
+def termFuel (T : Tables) : Nat := (T.nStates + 1) * (T.goto.length + 1) + 8
+
 end LalrpopModel.LR
